@@ -439,7 +439,13 @@ class QueryScheduler:
         """Reschedule a query for a pointer at an additional percentage of expiration."""
         ttl_millis = query.ttl * 1000
         additional_wait = ttl_millis * additional_percentage
-        next_query_time = now_millis + additional_wait
+        # The steps are fractions of the TTL of the record: counted from the
+        # time this query was due, not from the time it went out (it may have
+        # had to wait for the minimum time between queries, the delays of
+        # several steps would add up and the last step could be lost)
+        next_query_time = query.when_millis + additional_wait
+        while next_query_time <= now_millis:
+            next_query_time += additional_wait
         if next_query_time >= query.expire_time_millis:
             # If we would schedule past the expire time
             # there is no point in scheduling as we already
